@@ -73,7 +73,10 @@ pub fn run(ctx: &Ctx) -> bool {
             c17::fuzz(ctx)
         }
         "C18" => c18::run(ctx),
-        "C19" => c19::run(ctx),
+        "C19" => {
+            c19::run(ctx);
+            c19::run_many(ctx)
+        }
         "C20" => c20::run(ctx),
         _ => return false,
     }
@@ -122,7 +125,7 @@ fn replay_one(ctx: &Ctx, sub: &str, input: &serde_json::Value) -> Option<Result<
         "C16" => c16::replay(ctx, sub, input),
         "C17" => c17::replay(ctx, sub, input),
         "C18" => c18::replay(ctx, sub, input),
-        "C19" => c19::replay(ctx, input),
+        "C19" => c19::replay(ctx, sub, input),
         "C20" => c20::replay(ctx, sub, input),
         _ => return None,
     })
